@@ -136,6 +136,7 @@ static __thread int vs_owner;
 static vs_result_t vs_static_res;
 vs_result_t* vs_res = &vs_static_res;
 int vs_real_sleep_calls = 0;
+void (*vs_on_blocking_poll)(void) = 0;
 void (*vs_on_real_sleep)(const char*) = 0;
 const char* (*vs_describe_state)(void) = 0;
 int (*vs_idle_context)(void) = 0;
@@ -1718,6 +1719,8 @@ int epoll_wait(int epfd, struct epoll_event* ev, int maxev, int timeout) {
   tso_drain_self();
   vs.points++;
   vthread_t* t = vs.cur;
+  // a poll with a time-out puts the kernel thread to sleep: the harness may check what it leaves behind
+  if (timeout != 0 && vs_on_blocking_poll) vs_on_blocking_poll();
   int n = (int)syscall(SYS_epoll_pwait, epfd, ev, maxev, 0, 0, 8);
   if (n > 0) {
     vs.G++;
